@@ -1268,3 +1268,23 @@ M("x07", "fire", ["C07"], "TreeInfo.load override that skips deserialize for fil
             self.deserialize(parser)
 
     def dump(self, f, main_variant=None):'''))
+
+M("n77", "neutral", [], "_relative_to moved to common.py and imported back into extra_files",
+  (EF, '''def _relative_to(path, root):
+    root = root.rstrip("/") + "/"
+    if path.startswith(root):
+        return path[len(root):]
+    return path
+''', ''),
+  (EF, '''import productmd.common
+''', '''import productmd.common
+from productmd.common import _relative_to
+'''),
+  (CO, '''def _file_exists(path):''', '''def _relative_to(path, root):
+    root = root.rstrip("/") + "/"
+    if path.startswith(root):
+        return path[len(root):]
+    return path
+
+
+def _file_exists(path):'''))
